@@ -16,10 +16,10 @@ RULE = ('the whole domain the property names: every date from 1900-01-01 to 2100
         'date_bin for strides {1,2,3,7,30 days; 1,2,3,12 months; 1 year} x origins, on every k-th date (k=1 thorough); interval '
         'parsing; all 605 account names of 1..5 components over the five roots and a 3-letter alphabet (+ invalid roots) x '
         'root/parent/leaf/account_sortkey/possign; all 341 strings of length <= 4 over {a, B, space, colon} x substr with both '
-        'indexes in [-6, 6], upper/lower/length/splitcomp/joinstr/findfirst/grep; all decimals with <= 3 digits and exponent in '
+        'indexes in [-6, 6], upper/lower/length/splitcomp/joinstr/findfirst/grep; subst / grepn (literal patterns) over the strings of length <= 5 over {a, b, colon}; all decimals with <= 3 digits and exponent in '
         '[-3, 1] x abs/neg/round/safediv; cast inputs of every type from a lexicon.  Functions are called through the registry '
         'objects (NULL-strict wrapper included) and, sampled, through SQL.  Non-trivial = result is not NULL; distinct = distinct call.')
-ASSUMPTIONS = ['regex patterns are literal (grep/findfirst); parse_date (dateutil) is not modelled; maxwidth (textwrap.shorten) is modelled for texts without hyphens (no break_on_hyphens)',
+ASSUMPTIONS = ['regex patterns are literal (grep/grepn/subst/findfirst); parse_date (dateutil) is not modelled; maxwidth (textwrap.shorten) is modelled for texts without hyphens (no break_on_hyphens)',
                'value-domain exceptions (OverflowError on dates outside 1..9999, IndexError of splitcomp) are compared as classes']
 
 LO = datetime.date(1900, 1, 1).toordinal()
